@@ -508,6 +508,18 @@ def c16_history_case(rng, res, batch, tag):
                 if x != y and hasattr(objs[x], "required") and objs[y] not in objs[x].required:
                     objs[x].required.add(objs[y])
                     hist.append(["edge", x, y])
+            # two new jobs built from the SAME set object, put in two different schedulers
+            homes = [sx for sx in scheds if len(objs[sx].jobs) >= 1]
+            if len(homes) >= 2 and rng.random() < 0.4:
+                X, Y = rng.sample(homes, 2)
+                pj, qj = rng.choice(sorted(k.jid for k in objs[X].jobs)), rng.choice(sorted(k.jid for k in objs[Y].jobs))
+                shared = {objs[pj], objs[qj]}
+                for home in (X, Y):
+                    nj = SJob(len(objs), 70 + len(objs), required=shared)
+                    objs.append(nj)
+                    objs[home].add(nj)
+                    everyone.append(nj.jid)
+                hist.append(["shared-set", X, Y, pj, qj])
         before = {o.jid: {r.jid for r in getattr(o, "required", ())} for o in objs}
         enc = encode(objs)
         via = rng.choice(["sanitize", "sanitize", "keep_only"]) if rnd else "sanitize"
@@ -969,7 +981,8 @@ class Prog:
             order = []
             for x in built:
                 for y in a[2]:
-                    if self.arg(y) is x and y not in order:
+                    ay = self.arg(y)
+                    if (ay is x or (isinstance(x, tuple) and isinstance(ay, tuple) and ay == x)) and y not in order:
                         order.append(y)
                         break
             inner = order
@@ -978,10 +991,15 @@ class Prog:
         return "[ " + " ".join(self.enc_arg(x) for x in inner) + " ]"
 
     def state(self):
-        R = "|".join("%d:%s" % (j, enc_nats(sorted(r.jid for r in self.jobs[j].required)) if j in self.jobs else "") for j in range(self.nj))
+        R = "|".join("%d:%s" % (j, enc_nats(sorted(pseudo_jid(r) for r in self.jobs[j].required)) if j in self.jobs else "") for j in range(self.nj))
         Q = "|".join("%d:%s" % (q, enc_nats(j.jid for j in self.seqs[q].jobs) if q in self.seqs else "") for q in range(self.nq))
         M = "|".join("%d:%s" % (j, enc_nats(sorted(k.jid for k in self.jobs[j].jobs)) if j in self.jobs and isinstance(self.jobs[j], PureScheduler) else "") for j in range(self.nj))
         return "R=%s Q=%s M=%s" % (R, Q, M)
+
+
+def pseudo_jid(r):
+    """the id of a job; anything else found in a `required` set (None, a tuple, a Sequence) gets a large pseudo-id"""
+    return r.jid if hasattr(r, "jid") else 900 + sum(map(ord, type(r).__name__)) % 90
 
 
 def has_set(a):
@@ -1021,8 +1039,12 @@ def c19_exec(p, op):
     es = lambda s: "-" if s is None else str(s)
     try:
         if k == "newJob":
-            _, j, req, s = op
+            _, j, req, s = op[:4]
             r = p.arg(req)
+            # (share: the very same Python object is handed to two constructors in a row - no aliasing may result)
+            if len(op) > 4 and op[4] and getattr(p, "last_req", None) and p.last_req[0] == tuplify(req):
+                r = p.last_req[1]
+            p.last_req = (tuplify(req), r)
             txt = "newJob/%d/%s/%s" % (j, p.enc_arg(req, r if isinstance(r, set) else None), es(s))
             p.jobs[j] = SJob(j, j, required=r, scheduler=sch(s))
         elif k == "newSched":
@@ -1069,7 +1091,7 @@ def c19_exec(p, op):
 def c19_oracle(p, op, before, exc, case, res):
     """the clauses of C19 that concern this statement, on the real objects"""
     k = op[0]
-    reqs = lambda j: {r.jid for r in p.jobs[j].required}
+    reqs = lambda j: {pseudo_jid(r) for r in p.jobs[j].required}
     V = lambda msg: res.violations.append((msg, case))
     for j in p.jobs:
         if j in reqs(j):
@@ -1161,8 +1183,8 @@ def c19_oracle(p, op, before, exc, case, res):
         mem = [x.jid for x in p.jobs[s].jobs]
         if set(mem) != before["M"][s] | fl or len(mem) != len(set(mem)):
             V("%s does not register every job involved, once" % k)
-    if k in ("newJob", "newSched") and op[-1] is not None and exc == "-":
-        s = op[-1]
+    if k in ("newJob", "newSched") and op[3 if k == "newJob" else 4] is not None and exc == "-":
+        s = op[3 if k == "newJob" else 4]
         if {x.jid for x in p.jobs[s].jobs} != before["M"][s] | {op[1]}:
             V("scheduler= does not register the new job")
 
@@ -1193,7 +1215,8 @@ def ref_seqflat_before(before, items):
 
 
 def snapshot(p):
-    return dict(R={j: {r.jid for r in o.required} for j, o in p.jobs.items()},
+    # (anything in `required` that is not a job - None, a tuple, a Sequence - shows up as a negative pseudo-id)
+    return dict(R={j: {pseudo_jid(r) for r in o.required} for j, o in p.jobs.items()},
                 Q={q: [j.jid for j in s.jobs] for q, s in p.seqs.items()},
                 QS={q: (s.scheduler.jid if s.scheduler is not None else None) for q, s in p.seqs.items()},
                 M={j: {k.jid for k in o.jobs} for j, o in p.jobs.items() if isinstance(o, PureScheduler)})
@@ -1237,11 +1260,14 @@ def gen_arg(rng, jobs, seqs, depth=0, allow_coll=True):
         kind = rng.choice(["list", "tuple", "set"])
         items = [gen_arg(rng, jobs, seqs, depth + 1, allow_coll=(kind != "set")) for _ in range(rng.randint(0, 3))]
         if kind == "set":
-            # hashable, distinct elements only: jobs and None
+            # hashable, distinct elements only: jobs, None, sequences, tuples of those
+            def hashable(it):
+                return it[0] in ("J", "N", "Q") or (it[0] == "C" and it[1] == "tuple" and all(hashable(x) for x in it[2]))
+            items = [gen_arg(rng, jobs, seqs, depth + 1, allow_coll=True) for _ in range(rng.randint(0, 3))]
             seen, out = set(), []
             for it in items:
-                if it[0] in ("J", "N") and it not in seen:
-                    seen.add(it)
+                if hashable(it) and tuplify(it) not in seen:
+                    seen.add(tuplify(it))
                     out.append(it)
             items = out
         return ("C", kind, items)
@@ -1297,7 +1323,7 @@ def gen_prog(rng, maxlen=10):
 
 
 def tuplify(x):
-    if isinstance(x, list):
+    if isinstance(x, (list, tuple)):
         return tuple(tuplify(y) for y in x)
     return x
 
@@ -1314,7 +1340,7 @@ def fix_op(op):
     op = list(op)
     k = op[0]
     if k == "newJob":
-        return (k, op[1], fix_arg(op[2]), op[3])
+        return (k, op[1], fix_arg(op[2]), op[3]) + tuple(op[4:5])
     if k in ("newSched", "newSeq"):
         return (k, op[1], [fix_arg(a) for a in op[2]], fix_arg(op[3]), op[4])
     if k == "requires":
@@ -1376,6 +1402,20 @@ def run_C19(tier, seed, res, drv, replay=None):
         if rng.random() < 0.5:
             prog.append(("append", 0, [J(5)]))
         c19_case(prog, 8, 3, res, batch, "seq-edit-append")
+    # the same collection object given to two constructors, then one of the two jobs edited: the other must not move
+    for i in range(150 if tier == "quick" else 3000):
+        kind = rng.choice(["set", "list", "tuple"])
+        members = rng.sample(range(4), rng.randint(1, 3))
+        coll = ("C", kind, [J(m) for m in members])
+        prog = [("newJob", k, N, None) for k in (0, 1, 2, 3, 6)]
+        prog += [("newJob", 4, coll, None, False), ("newJob", 5, coll, None, True)]
+        for _ in range(rng.randint(1, 3)):
+            who = rng.choice([4, 5])
+            if rng.random() < 0.5:
+                prog.append(("requires", who, [J(rng.choice([0, 1, 2, 3, 6]))], False))
+            else:
+                prog.append(("requires", who, [J(rng.choice(members))], True))
+        c19_case(prog, 8, 3, res, batch, "shared-collection")
     for i in range(3000 if tier == "quick" else 80000):
         prog, nj, nq = gen_prog(rng, maxlen=10 if i % 4 else 4)
         c19_case(prog, nj, nq, res, batch, "rand")
